@@ -4,57 +4,52 @@ From Coq Require Import List NArith Bool.
 Import ListNotations.
 From Verif.C11 Require Import Model Proofs Proofs2.
 
-(* (1) goja's post-trap checks = ECMA-262 10.5 post-conditions, all 13 traps, every trap result, every well-formed target of any size - outside the region of finding F6 *)
+(* (1) goja's post-trap checks (proxy.go after fix beda41a) = ECMA-262 10.5 post-conditions: all 13 traps, every trap result, every well-formed target of any size.  The only guard left is the open finding F6c (a getOwnPropertyDescriptor result that is an accessor without getter and setter function) *)
 Theorem checks_eq_spec :
-  forall c t, wf t = true -> call_in_f6 c t = false ->
+  forall c t, wf t = true -> call_in_f6c c = false ->
   goja_check c t = spec_check c t.
 Proof. exact Proofs2.checks_eq_spec. Qed.
 
-(* ... unconditionally for the 11 traps other than getOwnPropertyDescriptor/defineProperty *)
+(* ... unconditionally for the 12 traps other than getOwnPropertyDescriptor *)
 Theorem checks_eq_spec_other_traps :
   forall c t, wf t = true ->
-  match c with CGopd _ _ | CDefine _ _ _ => False | _ => True end ->
+  match c with CGopd _ _ => False | _ => True end ->
   goja_check c t = spec_check c t.
 Proof. exact Proofs2.checks_eq_spec_other_traps. Qed.
+
+(* __isCompatibleDescriptor = IsCompatiblePropertyDescriptor (ValidateAndApplyPropertyDescriptor with O undefined) for every descriptor and every existing property *)
+Theorem compat_eq :
+  forall ext d cur,
+  desc_invalid d = false -> goja_compat ext d cur = spec_compat ext d cur.
+Proof. exact Proofs.compat_eq. Qed.
 
 (* ownKeys: goja's one-pass keySet algorithm = the spec's two-pass algorithm, for key lists and property tables of any length *)
 Theorem ownkeys_eq :
   forall r t, wf t = true -> goja_ownkeys r t = spec_ownkeys r t.
 Proof. exact Proofs.ownkeys_eq. Qed.
 
-(* getOwnPropertyDescriptor outside the F6 region (explicit guard) *)
+(* getOwnPropertyDescriptor outside F6c (explicit guard) *)
 Theorem gopd_eq_partial :
   forall r cur ext,
-  match r with GDesc d => f6_region (complete d) cur || undef_accessor d = false | GUndef | GNonObj => True end ->
+  match r with GDesc d => undef_accessor d = false | GUndef | GNonObj => True end ->
   goja_gopd r cur ext = spec_gopd r cur ext.
 Proof. exact Proofs.gopd_eq_partial. Qed.
 
-(* defineProperty outside the F6 region (explicit guard) *)
-Theorem define_eq_partial :
+(* defineProperty: unguarded *)
+Theorem define_eq :
   forall d (r : bool) cur ext,
-  desc_invalid d = false -> (if r then f6_region d cur else false) = false ->
-  goja_define d r cur ext = spec_define d r cur ext.
-Proof. exact Proofs.define_eq_partial. Qed.
+  desc_invalid d = false -> goja_define d r cur ext = spec_define d r cur ext.
+Proof. exact Proofs.define_eq. Qed.
 
-(* F6: the full-strength statement is false on the current tree: honest result rejected, lying result accepted *)
-Theorem gopd_check_refuted :
-  wf acc_target = true /\
-  (goja_check (CGopd 1%N (GDesc (of_prop (PAcc (Some 1%N) None false false)))) acc_target = RTypeError /\
-   spec_check (CGopd 1%N (GDesc (of_prop (PAcc (Some 1%N) None false false)))) acc_target
-     = RDesc (Some (PAcc (Some 1%N) None false false))) /\
-  (goja_check (CGopd 1%N (GDesc (of_prop (PAcc (Some 2%N) None false false)))) acc_target
-     = RDesc (Some (PAcc (Some 2%N) None false false)) /\
-   spec_check (CGopd 1%N (GDesc (of_prop (PAcc (Some 2%N) None false false)))) acc_target = RTypeError).
-Proof. exact Proofs2.gopd_check_refuted. Qed.
+(* the former witnesses of F6/F6b now agree with the spec (regression) *)
+Theorem f6_repaired :
+  goja_check (CGopd 1%N (GDesc (of_prop (PAcc (Some 1%N) None false false)))) acc_target
+    = RDesc (Some (PAcc (Some 1%N) None false false)) /\
+  goja_check (CGopd 1%N (GDesc (of_prop (PAcc (Some 2%N) None false false)))) acc_target = RTypeError /\
+  goja_check (CDefine 1%N (mkD None None None None (Some (Some 1%N)) None) true) data_target = RTypeError.
+Proof. exact Proofs2.f6_repaired. Qed.
 
-(* F6 (kind change accepted by defineProperty) *)
-Theorem define_check_refuted :
-  wf data_target = true /\
-  goja_check (CDefine 1%N (mkD None None None None (Some (Some 1%N)) None) true) data_target = RBool true /\
-  spec_check (CDefine 1%N (mkD None None None None (Some (Some 1%N)) None) true) data_target = RTypeError.
-Proof. exact Proofs2.define_check_refuted. Qed.
-
-(* {get: undefined, set: undefined} reported as a data property *)
+(* F6c (open): {get: undefined, set: undefined} is reported as a data property *)
 Theorem gopd_result_refuted :
   wf undef_acc_target = true /\
   goja_check (CGopd 1%N (GDesc (of_prop (PAcc None None true true)))) undef_acc_target
@@ -82,17 +77,17 @@ Theorem forwarding_transparent :
   layered spec_check w n o t = ord_step w o t.
 Proof. exact Proofs2.forwarding_transparent. Qed.
 
-(* the same through goja's checks, away from accessor properties under getOwnPropertyDescriptor/defineProperty *)
+(* the same through goja's checks; only guard: F6c *)
 Theorem goja_forwarding_transparent :
-  forall w n o t, wf t = true -> f6_free o t = true ->
+  forall w n o t, wf t = true -> f6c_free o t = true ->
   layered goja_check w n o t = ord_step w o t.
 Proof. exact Proofs2.goja_forwarding_transparent. Qed.
 
-(* ... and inside that region goja's forwarding proxy throws where the target answers (F6) *)
-Theorem goja_forwarding_refuted :
-  layered goja_check w0 1 (OGopd 1%N) acc_target = (RTypeError, acc_target) /\
-  ord_step w0 (OGopd 1%N) acc_target = (RDesc (Some (PAcc (Some 1%N) None false false)), acc_target).
-Proof. exact Proofs2.goja_forwarding_refuted. Qed.
+(* ... where goja's forwarding proxy still differs from the target *)
+Theorem goja_forwarding_refuted_f6c :
+  layered goja_check w0 1 (OGopd 1%N) undef_acc_target = (RDesc (Some (PData vundef false true true)), undef_acc_target) /\
+  ord_step w0 (OGopd 1%N) undef_acc_target = (RDesc (Some (PAcc None None true true)), undef_acc_target).
+Proof. exact Proofs2.goja_forwarding_refuted_f6c. Qed.
 
 (* (4) exactly the lying results are rejected *)
 Theorem lying_has :
@@ -189,7 +184,7 @@ Proof. exact Proofs2.lying_construct. Qed.
 (* goja's checks reject exactly the same lies *)
 Theorem goja_rejects_lies :
   forall c t, wf t = true ->
-  match c with CGopd _ _ | CDefine _ _ _ => False | _ => True end ->
+  match c with CGopd _ _ => False | _ => True end ->
   (goja_check c t = RTypeError <-> spec_check c t = RTypeError).
 Proof. exact Proofs2.goja_rejects_lies. Qed.
 
@@ -200,7 +195,7 @@ Proof. exact Proofs2.revoked_throws. Qed.
 
 (* non-vacuity *)
 Example ex_checks_guard :
-  wf ex_target = true /\ call_in_f6 (CHas 1%N false) ex_target = false /\
+  wf ex_target = true /\ call_in_f6c (CGopd 1%N (GDesc (of_prop (PData 1%N false true false)))) = false /\
   goja_check (CHas 1%N false) ex_target = RTypeError /\ spec_check (CHas 1%N true) ex_target = RBool true.
 Proof. exact Proofs2.ex_checks_guard. Qed.
 
@@ -216,7 +211,8 @@ Example ex_honest :
   = (RBool true, mkT false (Some 1%N) [(1%N, PData 1%N false true false); (2%N, PAcc None (Some 2%N) false false); (4%N, PData 5%N true true false)])
   /\ layered goja_check w0 3 (ODefine 4%N (mkD (Some 5%N) None None (Some false) None None)) ex_target
      = ord_step w0 (ODefine 4%N (mkD (Some 5%N) None None (Some false) None None)) ex_target
-  /\ f6_free (ODefine 4%N (mkD (Some 5%N) None None (Some false) None None)) ex_target = true.
+  /\ f6c_free (ODefine 4%N (mkD (Some 5%N) None None (Some false) None None)) ex_target = true
+  /\ f6c_free (OGopd 2%N) ex_target = true /\ layered goja_check w0 2 (OGopd 2%N) ex_target = ord_step w0 (OGopd 2%N) ex_target.
 Proof. exact Proofs2.ex_honest. Qed.
 
 Example ex_lying_get :
@@ -227,17 +223,17 @@ Proof. exact Proofs2.ex_lying_get. Qed.
 
 Print Assumptions checks_eq_spec.
 Print Assumptions checks_eq_spec_other_traps.
+Print Assumptions compat_eq.
 Print Assumptions ownkeys_eq.
 Print Assumptions gopd_eq_partial.
-Print Assumptions define_eq_partial.
-Print Assumptions gopd_check_refuted.
-Print Assumptions define_check_refuted.
+Print Assumptions define_eq.
+Print Assumptions f6_repaired.
 Print Assumptions gopd_result_refuted.
 Print Assumptions ord_step_wf.
 Print Assumptions honest_accepted.
 Print Assumptions forwarding_transparent.
 Print Assumptions goja_forwarding_transparent.
-Print Assumptions goja_forwarding_refuted.
+Print Assumptions goja_forwarding_refuted_f6c.
 Print Assumptions lying_has.
 Print Assumptions lying_delete.
 Print Assumptions lying_get.
